@@ -355,104 +355,9 @@ func runC14(c *Ctx) {
 		}
 		c.Floor("C14.stream-end/table-rows", rows, 24)
 	}
-	// ---- Cache.Reset excludes Remove/Add while the target is being reset
-	c.Rule("C14.reset-excl", "Cache.Reset calls Target.Reset while holding Cache.mu (read or write) on every path, so a concurrent Remove/Add of that target (which take it for writing) cannot interleave with the announcements of the reset")
-	{
-		cr := P.Method("cache", "Cache", "Reset")
-		tr := P.Method("cache", "Target", "Reset")
-		fMu := P.Field("cache", "Cache", "mu")
-		if cr == nil || tr == nil || fMu == nil {
-			c.Unresolved("C14.reset-excl", "cache.(*Cache).Reset / (*Target).Reset / Cache.mu")
-		} else {
-			c.Analysed(fnName(cr))
-			isTR := lbl("call:" + fnName(tr))
-			e := &PPA{Watch: func(ev *Ev) bool { return isTR(ev) || (isLockOp(ev) && ev.Field == fMu) }}
-			e.Run(cr)
-			c.Paths += len(e.Paths)
-			n := 0
-			for i := range e.Paths {
-				p := &e.Paths[i]
-				held := 0
-				for j := range p.Trace {
-					ev := &p.Trace[j]
-					if isLockOp(ev) {
-						if lockOps[ev.Label][1] == '+' {
-							held++
-						} else {
-							held--
-						}
-						continue
-					}
-					n++
-					c.Check(held > 0, "C14.reset-excl", fnName(cr), "Target.Reset runs under Cache.mu", P.Pos(posOf(ev.In)), "path: "+p.String())
-				}
-			}
-			c.Floor("C14.reset-excl/calls", n, 1)
-		}
-	}
+	resetExcl(c, "C14.reset-excl")
 	c.Borrow("C04", map[string]string{"C04.reg-before-walk": "C14.attach-order"}, "the deletes a Reset/Remove announces reach a subscriber only through its registration: a stream that walks the cache before it registers is sent the leaves and never the announcement that removed them (and a removed target's stream is never ended)")
-	// ---- the all-targets walk excludes Remove: a removed target is not reported after its whole-target delete
-	c.Rule("C14.walk-excl", "Cache.Query for all targets (target == \"*\"): every per-target Tree.Query runs while Cache.mu is held, so a Remove (write lock) cannot complete - forget the target and announce its whole-target delete - in the middle of the walk and be followed by leaves of the removed target")
-	{
-		cq := P.Method("cache", "Cache", "Query")
-		fMu := P.Field("cache", "Cache", "mu")
-		if cq == nil || fMu == nil || len(cq.Params) < 2 {
-			c.Unresolved("C14.walk-excl", "cache.(*Cache).Query / Cache.mu")
-		} else {
-			c.Analysed(fnName(cq))
-			tP := ssa.Value(param(cq, 1))
-			cls := func(e *PPA, st *State, rv RV) string {
-				r := e.Resolve(st, rv)
-				b, ok := r.V.(*ssa.BinOp)
-				if !ok || (b.Op != token.EQL && b.Op != token.NEQ) {
-					return ""
-				}
-				for _, pr := range [][2]ssa.Value{{b.X, b.Y}, {b.Y, b.X}} {
-					if e.Resolve(st, RV{r.F, pr[0]}).V != tP {
-						continue
-					}
-					if s, ok := constString(pr[1]); ok {
-						name := "OTHER"
-						switch s {
-						case "*":
-							name = "ALL"
-						case "":
-							name = "NONE"
-						}
-						if b.Op == token.NEQ {
-							return "!" + name
-						}
-						return name
-					}
-				}
-				return ""
-			}
-			at := &Atoms{Class: cls, Bool: map[string]bool{"ALL": true, "NONE": false}}
-			isTQ := lbl("call:(*ctree.Tree).Query")
-			e := &PPA{Cond: at.Cond, MaxVisits: 3, Watch: func(ev *Ev) bool { return isTQ(ev) || (isLockOp(ev) && ev.Field == fMu) }}
-			e.Run(cq)
-			c.Paths += len(e.Paths)
-			n := 0
-			for i := range e.Paths {
-				p := &e.Paths[i]
-				held := 0
-				for j := range p.Trace {
-					ev := &p.Trace[j]
-					if isLockOp(ev) {
-						if lockOps[ev.Label][1] == '+' {
-							held++
-						} else {
-							held--
-						}
-						continue
-					}
-					n++
-					c.Check(held > 0, "C14.walk-excl", fnName(cq), "per-target query of the all-targets walk runs under Cache.mu", P.Pos(posOf(ev.In)), "path: "+p.String())
-				}
-			}
-			c.Floor("C14.walk-excl/queries", n, 1)
-		}
-	}
+	walkExcl(c, "C14.walk-excl")
 	// ---- meta init
 	c.Rule("C14.meta-init", "metadata.Clear ranges over the bool, int and string registries and calls ResetEntry for every key; ResetEntry has an arm for each kind and an error for unknown entries")
 	{
@@ -646,4 +551,110 @@ func stripLoad(v ssa.Value) ssa.Value {
 		return u.X
 	}
 	return v
+}
+
+// resetExcl / walkExcl: shared with C03 and C04 (the feed order and the snapshot both depend on them).
+func resetExcl(c *Ctx, rule string) {
+	P := c.P
+	// ---- Cache.Reset excludes Remove/Add while the target is being reset
+	c.Rule(rule, "Cache.Reset calls Target.Reset while holding Cache.mu (read or write) on every path, so a concurrent Remove/Add of that target (which take it for writing) cannot interleave with the announcements of the reset")
+	{
+		cr := P.Method("cache", "Cache", "Reset")
+		tr := P.Method("cache", "Target", "Reset")
+		fMu := P.Field("cache", "Cache", "mu")
+		if cr == nil || tr == nil || fMu == nil {
+			c.Unresolved(rule, "cache.(*Cache).Reset / (*Target).Reset / Cache.mu")
+		} else {
+			c.Analysed(fnName(cr))
+			isTR := lbl("call:" + fnName(tr))
+			e := &PPA{Watch: func(ev *Ev) bool { return isTR(ev) || (isLockOp(ev) && ev.Field == fMu) }}
+			e.Run(cr)
+			c.Paths += len(e.Paths)
+			n := 0
+			for i := range e.Paths {
+				p := &e.Paths[i]
+				held := 0
+				for j := range p.Trace {
+					ev := &p.Trace[j]
+					if isLockOp(ev) {
+						if lockOps[ev.Label][1] == '+' {
+							held++
+						} else {
+							held--
+						}
+						continue
+					}
+					n++
+					c.Check(held > 0, rule, fnName(cr), "Target.Reset runs under Cache.mu", P.Pos(posOf(ev.In)), "path: "+p.String())
+				}
+			}
+			c.Floor(rule+"/calls", n, 1)
+		}
+	}
+}
+
+func walkExcl(c *Ctx, rule string) {
+	P := c.P
+	// ---- the all-targets walk excludes Remove: a removed target is not reported after its whole-target delete
+	c.Rule(rule, "Cache.Query for all targets (target == \"*\"): every per-target Tree.Query runs while Cache.mu is held, so a Remove (write lock) cannot complete - forget the target and announce its whole-target delete - in the middle of the walk and be followed by leaves of the removed target")
+	{
+		cq := P.Method("cache", "Cache", "Query")
+		fMu := P.Field("cache", "Cache", "mu")
+		if cq == nil || fMu == nil || len(cq.Params) < 2 {
+			c.Unresolved(rule, "cache.(*Cache).Query / Cache.mu")
+		} else {
+			c.Analysed(fnName(cq))
+			tP := ssa.Value(param(cq, 1))
+			cls := func(e *PPA, st *State, rv RV) string {
+				r := e.Resolve(st, rv)
+				b, ok := r.V.(*ssa.BinOp)
+				if !ok || (b.Op != token.EQL && b.Op != token.NEQ) {
+					return ""
+				}
+				for _, pr := range [][2]ssa.Value{{b.X, b.Y}, {b.Y, b.X}} {
+					if e.Resolve(st, RV{r.F, pr[0]}).V != tP {
+						continue
+					}
+					if s, ok := constString(pr[1]); ok {
+						name := "OTHER"
+						switch s {
+						case "*":
+							name = "ALL"
+						case "":
+							name = "NONE"
+						}
+						if b.Op == token.NEQ {
+							return "!" + name
+						}
+						return name
+					}
+				}
+				return ""
+			}
+			at := &Atoms{Class: cls, Bool: map[string]bool{"ALL": true, "NONE": false}}
+			isTQ := lbl("call:(*ctree.Tree).Query")
+			e := &PPA{Cond: at.Cond, MaxVisits: 3, Watch: func(ev *Ev) bool { return isTQ(ev) || (isLockOp(ev) && ev.Field == fMu) }}
+			e.Run(cq)
+			c.Paths += len(e.Paths)
+			n := 0
+			for i := range e.Paths {
+				p := &e.Paths[i]
+				held := 0
+				for j := range p.Trace {
+					ev := &p.Trace[j]
+					if isLockOp(ev) {
+						if lockOps[ev.Label][1] == '+' {
+							held++
+						} else {
+							held--
+						}
+						continue
+					}
+					n++
+					c.Check(held > 0, rule, fnName(cq), "per-target query of the all-targets walk runs under Cache.mu", P.Pos(posOf(ev.In)), "path: "+p.String())
+				}
+			}
+			c.Floor(rule+"/queries", n, 1)
+		}
+	}
 }
